@@ -107,7 +107,7 @@ PostViolations(f, e) ==
               THEN <<[prop |-> "C12", what |-> "mkdir_all succeeded but its handle is not the in-root resolution of the path in the final tree", case |-> caseId, line |-> l, nr |-> "", d1 |-> 0, n1 |-> ""]>> ELSE <<>>
         v5 == IF mk # {} /\ rm = {} /\ e.rid >= 0 /\ (\E d \in Added(f) : \E x \in ToSet(e.inodes) : x[1] = d[3] /\ x[4] # e.rid)
               THEN <<[prop |-> "C12", what |-> "mkdir_all created a directory whose mode is not the requested one (modulo umask)", case |-> caseId, line |-> l, nr |-> "", d1 |-> 0, n1 |-> ""]>> ELSE <<>>
-        v4 == IF e.expectall /\ (\E i \in mk : ~calls[i].ok) THEN <<[prop |-> "C12", what |-> "a concurrent mkdir_all failed although the same call succeeds when run alone", case |-> caseId, line |-> l, nr |-> "", d1 |-> 0, n1 |-> ""]>> ELSE <<>>
+        v4 == IF e.expectall /\ (\E i \in mk : ~calls[i].ok) THEN <<[prop |-> "C12", what |-> "a concurrent mkdir_all failed although the design model proves that these calls all succeed", case |-> caseId, line |-> l, nr |-> "", d1 |-> 0, n1 |-> ""]>> ELSE <<>>
         w1 == IF rm # {} /\ mk = {} /\ Added(f) # {} THEN <<[prop |-> "C13", what |-> "remove_all added an entry", case |-> caseId, line |-> l, nr |-> "", d1 |-> 0, n1 |-> ""]>> ELSE <<>>
         w2 == IF rm # {} /\ mk = {} /\ ~(Removed(f) \subseteq UNION {SubtreeDents(Target(calls[i])) : i \in rm})
               THEN <<[prop |-> "C13", what |-> "remove_all removed an entry outside the named subtree", case |-> caseId, line |-> l, nr |-> "", d1 |-> 0, n1 |-> ""]>> ELSE <<>>
@@ -115,7 +115,7 @@ PostViolations(f, e) ==
               THEN <<[prop |-> "C13", what |-> "remove_all succeeded but the named entry still exists", case |-> caseId, line |-> l, nr |-> "", d1 |-> 0, n1 |-> ""]>> ELSE <<>>
         w4 == IF \E i \in rmOk : Target(calls[i])[1] # 0 /\ mk = {} /\ ~(SubtreeDents(Target(calls[i])) \subseteq Removed(f))
               THEN <<[prop |-> "C13", what |-> "remove_all succeeded but part of the named subtree is still there", case |-> caseId, line |-> l, nr |-> "", d1 |-> 0, n1 |-> ""]>> ELSE <<>>
-        w5 == IF e.expectall /\ (\E i \in rm : ~calls[i].ok) THEN <<[prop |-> "C13", what |-> "a concurrent remove_all failed although the same call succeeds when run alone", case |-> caseId, line |-> l, nr |-> "", d1 |-> 0, n1 |-> ""]>> ELSE <<>>
+        w5 == IF e.expectall /\ (\E i \in rm : ~calls[i].ok) THEN <<[prop |-> "C13", what |-> "a concurrent remove_all failed although the design model proves that these calls all succeed", case |-> caseId, line |-> l, nr |-> "", d1 |-> 0, n1 |-> ""]>> ELSE <<>>
     IN  v1 \o v2 \o v3 \o v4 \o v5 \o w1 \o w2 \o w3 \o w4 \o w5
 
 Step ==
